@@ -715,7 +715,9 @@ func c09Ensure(c *core.Ctx, pkg *packages.Package) {
 	}
 }
 
-func c09Close(c *core.Ctx, pkg *packages.Package) {
+func c09Close(c *core.Ctx, pkg *packages.Package) { c09CloseAs(c, pkg, "C09.close") }
+
+func c09CloseAs(c *core.Ctx, pkg *packages.Package, rule string) {
 	info := pkg.TypesInfo
 	// functions reachable (same package) from the graceful entry points
 	reach := map[*types.Func]*core.Func{}
@@ -735,7 +737,7 @@ func c09Close(c *core.Ctx, pkg *packages.Package) {
 		})
 	}
 	for _, e := range [][2]string{{"Topic", "removeHandler"}, {"Topic", "close"}, {"Topics", "Close"}, {"Topics", "DeleteTopic"}, {"Topics", "DeregisterHandler"}, {"Topics", "ReplaceHandler"}} {
-		if fn := c.Need("C09.close", "alert", e[0], e[1]); fn != nil {
+		if fn := c.Need(rule, "alert", e[0], e[1]); fn != nil {
 			visit(fn)
 		}
 	}
@@ -754,22 +756,24 @@ func c09Close(c *core.Ctx, pkg *packages.Package) {
 			switch f.Name() {
 			case "Abort":
 				bad = true
-				c.Fail("C09.close", fn.Name()+"#Abort", call.Pos(), "a handler is aborted on a graceful path: events already buffered for it are thrown away")
+				c.Fail(rule, fn.Name()+"#Abort", call.Pos(), "a handler is aborted on a graceful path: events already buffered for it are thrown away")
 			case "Close":
 				closes++
 			}
 			return true
 		})
 	}
-	c.Floor("C09.close", "bufHandler.Close calls on graceful paths", closes, 2)
+	c.Floor(rule, "bufHandler.Close calls on graceful paths", closes, 2)
 	if !bad {
-		c.Ok("C09.close", "graceful-paths")
+		c.Ok(rule, "graceful-paths")
 	}
 }
 
-func c09Buffer(c *core.Ctx, pkg *packages.Package) {
+func c09Buffer(c *core.Ctx, pkg *packages.Package) { c09BufferAs(c, pkg, "C09.buffer") }
+
+func c09BufferAs(c *core.Ctx, pkg *packages.Package, rule string) {
 	info := pkg.TypesInfo
-	if fn := c.Need("C09.buffer", "alert", "", "newHandler"); fn != nil {
+	if fn := c.Need(rule, "alert", "", "newHandler"); fn != nil {
 		gos := 0
 		runs := false
 		ast.Inspect(fn.Decl.Body, func(n ast.Node) bool {
@@ -786,9 +790,9 @@ func c09Buffer(c *core.Ctx, pkg *packages.Package) {
 			}
 			return true
 		})
-		c.Check(gos == 1 && runs, "C09.buffer", "newHandler#one-consumer", fn.Decl.Pos(), "newHandler must start exactly one goroutine running run() (found %d go statements, run() started: %v): per-handler FIFO delivery relies on a single consumer", gos, runs)
+		c.Check(gos == 1 && runs, rule, "newHandler#one-consumer", fn.Decl.Pos(), "newHandler must start exactly one goroutine running run() (found %d go statements, run() started: %v): per-handler FIFO delivery relies on a single consumer", gos, runs)
 	}
-	if fn := c.Need("C09.buffer", "alert", "bufHandler", "Handle"); fn != nil {
+	if fn := c.Need(rule, "alert", "bufHandler", "Handle"); fn != nil {
 		ev := an.ParamName(fn.Decl.Type, 0)
 		sends, deflt, other := 0, false, false
 		ast.Inspect(fn.Decl.Body, func(n ast.Node) bool {
@@ -810,9 +814,9 @@ func c09Buffer(c *core.Ctx, pkg *packages.Package) {
 			}
 			return true
 		})
-		c.Check(sends == 1 && deflt && !other, "C09.buffer", "bufHandler.Handle#enqueue-only", fn.Decl.Pos(), "Handle must enqueue the event on h.events in a select with default and do nothing else (sends %d, default %v, other delivery %v)", sends, deflt, other)
+		c.Check(sends == 1 && deflt && !other, rule, "bufHandler.Handle#enqueue-only", fn.Decl.Pos(), "Handle must enqueue the event on h.events in a select with default and do nothing else (sends %d, default %v, other delivery %v)", sends, deflt, other)
 	}
-	if fn := c.Need("C09.buffer", "alert", "bufHandler", "run"); fn != nil {
+	if fn := c.Need(rule, "alert", "bufHandler", "run"); fn != nil {
 		eng := &an.Engine{Prog: c.P,
 			TrackCall: func(call *ast.CallExpr, callee *types.Func) string {
 				if callee != nil && callee.Name() == "Handle" {
@@ -828,7 +832,7 @@ func c09Buffer(c *core.Ctx, pkg *packages.Package) {
 			}}
 		paths, err := eng.Run(fn)
 		if err != nil {
-			c.Undecided("C09.buffer", "bufHandler.run", fn.Decl.Pos(), "%v", err)
+			c.Undecided(rule, "bufHandler.run", fn.Decl.Pos(), "%v", err)
 			return
 		}
 		good := len(paths) > 0
@@ -842,21 +846,21 @@ func c09Buffer(c *core.Ctx, pkg *packages.Package) {
 			if open {
 				if d := p.Find("deliver"); d == nil || len(d.Args) != 1 || !strings.HasSuffix(d.Args[0], ".events.0") {
 					good = false
-					c.Fail("C09.buffer", "bufHandler.run#deliver", p.RetPos, "an event received from the buffer is not handed to the wrapped handler")
+					c.Fail(rule, "bufHandler.run#deliver", p.RetPos, "an event received from the buffer is not handed to the wrapped handler")
 				} else {
 					delivered = true
 				}
 				if p.Exit == "return" {
 					good = false
-					c.Fail("C09.buffer", "bufHandler.run#keeps-running", p.RetPos, "run() returns after delivering an event: later events stay in the buffer")
+					c.Fail(rule, "bufHandler.run#keeps-running", p.RetPos, "run() returns after delivering an event: later events stay in the buffer")
 				}
 			} else if p.Has("deliver") {
 				good = false
-				c.Fail("C09.buffer", "bufHandler.run#closed", p.RetPos, "the zero event of a closed channel is delivered")
+				c.Fail(rule, "bufHandler.run#closed", p.RetPos, "the zero event of a closed channel is delivered")
 			}
 		}
 		if good && delivered {
-			c.Ok("C09.buffer", "bufHandler.run")
+			c.Ok(rule, "bufHandler.run")
 		}
 	}
 }
